@@ -320,7 +320,7 @@ fn l1_quiescence(p: &Params) {
     };
     if let Some(n) = p.limit {
         if entries.len() > n {
-            fail("limit_exceeded_after_concurrency", &["C18"], format!("{} entries at quiescence, limit {n}: {:?} queue {:?} [{}]", entries.len(), entries.keys(), queue, p.short()));
+            fail("limit_exceeded_after_concurrency", &["C18", "C04"], format!("{} entries at quiescence, limit {n}: {:?} queue {:?} [{}]", entries.len(), entries.keys(), queue, p.short()));
         }
     }
     if let Some(m) = p.max_memory {
@@ -452,7 +452,7 @@ fn l2_quiescence(case: &SCase, prop: &str) {
         }
         if let Some(n) = s.limit {
             if keys.len() > n {
-                fail("limit_exceeded_after_concurrency", &["C18"], format!("{} [{}] holds {} entries at quiescence, limit {n}: {:?}", s.fn_name, s.attrs, keys.len(), strs));
+                fail("limit_exceeded_after_concurrency", &["C18", "C04"], format!("{} [{}] holds {} entries at quiescence, limit {n}: {:?}", s.fn_name, s.attrs, keys.len(), strs));
             }
         }
         if let Some(m) = s.max_memory {
@@ -481,7 +481,7 @@ fn l2_quiescence(case: &SCase, prop: &str) {
                     }
                     let now = list_keys(s.reg_name).unwrap_or_default();
                     if now.len() > n {
-                        fail("limit_exceeded_after_concurrency", &["C18"], format!("{} [{}] holds {} entries during the sequential probe, limit {n}: {:?}", s.fn_name, s.attrs, now.len(), now));
+                        fail("limit_exceeded_after_concurrency", &["C18", "C04"], format!("{} [{}] holds {} entries during the sequential probe, limit {n}: {:?}", s.fn_name, s.attrs, now.len(), now));
                     }
                 }
                 if matches!(s.policy, Policy::Fifo | Policy::Lru) && s.max_memory.is_none() {
@@ -778,6 +778,9 @@ pub const NAMES: [&str; 9] = ["x", "y", "t0", "t1", "e0", "e1", "d0", "d1", "zz"
 
 pub fn gen_case(prop: &str, seed: u64) -> (SCase, Sched) {
     let mut r = Rng::new(seed);
+    // C04 under concurrency: half of the programs use at most `limit` distinct keys (nothing may be
+    // evicted), the other half are the general programs of C18 (the limit must hold at quiescence)
+    let prop = if prop == "C04" && r.chance(1, 2) { "C18" } else { prop };
     let sched = Sched { pct_depth: if r.chance(1, 2) { 0 } else { r.range(1, 3) as u8 }, seed: r.next_u64() };
     let shards = *r.pick(&[1u8, 2, 4]);
     let salt = r.next_u64();
